@@ -170,10 +170,9 @@ def _asv_post(c):
   tagged = z3.And(
       z3.Implies(some_tag, merged),
       z3.Implies(z3.Not(some_tag), tags_same(h, h0, sv)),
-      # (the exact history of the TaggedValue path — UPDATE_TAGS snapshot of the merged set, then
-      # the inner value — is `tagged_hist`; z3 does not discharge it within the budget, so it is
-      # left to the bounded layer: see DESIGN.md §5 C16)
-      H.counter(h) >= H.counter(h0),
+      # the exact history of the TaggedValue path: an UPDATE_TAGS snapshot of the merged set (if
+      # the TaggedValue carries a tag), then the inner value (if it has one)
+      tagged_hist,
       z3.If(inner_present,
             store_eq(h, h0, sv, lambda has: z3.Store(has, key, True),
                      lambda val: z3.Store(val, key, inner)),
